@@ -310,6 +310,8 @@ def c11_oracle(h, case, impl):
                         fails.append(("series-sequence", "fragment sequence %d, expected %d" % (sq, series[0])))
                     if confirmed != series[1]:
                         fails.append(("series-gating", "the next fragment was sent without the confirm of fragment %d" % series[1]))
+                if not fin and len(b) == 4:
+                    fails.append(("empty-nonfinal-fragment", "a non-final fragment carries no object at all: the series makes no progress"))
                 if fin != complete:
                     fails.append(("series-fin", "FIN is %d although the database says complete=%d" % (fin, complete)))
                 if con != ((not complete) or has_events):
